@@ -595,24 +595,56 @@ fn check_compressor(ctx: &mut Ctx, idx: u64, r: &mut Rng) -> Option<(String, J)>
 	let tail = raw_amp(threshold - 20.0);
 	let mut x = vec![Frame::from_mono(level as f32); n_on];
 	x.extend(vec![Frame::from_mono(tail as f32); n_rel * 3 + 100]);
-	let y = run_effect(&spec, sr, 128, &x, &[128]);
+	// in a third of the cases the instance has processed (quiet) audio at another device rate first: its time constants
+	// are seconds, whatever rate it was running at before
+	let before = if r.chance(0.33) { Some(*r.pick(&SAMPLE_RATES)) } else { None };
+	let y = match before {
+		None => run_effect(&spec, sr, 128, &x, &[128]),
+		Some(b) => {
+			ctx.count("compressor_step_checks_after_a_rate_change", 1);
+			let mut fx = spec.build();
+			fx.init(b, 128);
+			let info = crate::probes::mock_info();
+			let mut warm = vec![Frame::from_mono(tail as f32); 300];
+			for c in warm.chunks_mut(128) {
+				fx.on_start_processing();
+				fx.process(c, 1.0 / b as f64, &info);
+			}
+			fx.on_change_sample_rate(sr);
+			let mut out = x.clone();
+			for (k, c) in out.chunks_mut(128).enumerate() {
+				fx.on_start_processing();
+				fx.process(c, 1.0 / sr as f64, &info);
+				if k % 64 == 0 {
+					crate::monitors::bump();
+				}
+			}
+			out
+		}
+	};
+	let spec_detail = |what: &str| {
+		match before {
+			Some(b) => detail(&spec, sr, &format!("{} (the instance ran at {} Hz before)", what, b)),
+			None => detail(&spec, sr, what),
+		}
+	};
 	let gr_db = |i: usize| db((y[i].left as f64 / mk) / x[i].left as f64);
 	let want_ss = -over_db * (1.0 - 1.0 / ratio);
 	let got_ss = gr_db(n_on - 1);
 	ctx.count("compressor_step_checks", 1);
 	if (got_ss - want_ss).abs() > 0.1 {
-		return Some((format!("compressor steady-state gain {:.3} dB, documented (level-threshold)(1-1/ratio) = {:.3} dB (over {:.2} dB, ratio {:.3})", got_ss, want_ss, over_db, ratio), detail(&spec, sr, "steady-state reduction")));
+		return Some((format!("compressor steady-state gain {:.3} dB, documented (level-threshold)(1-1/ratio) = {:.3} dB (over {:.2} dB, ratio {:.3})", got_ss, want_ss, over_db, ratio), spec_detail("steady-state reduction")));
 	}
 	if want_ss.abs() > 0.5 && n_att >= 20 {
 		// after one attack time the reduction reached 1 - 1/e of its final value (± 5 % of the final value)
 		let frac = gr_db(n_att - 1) / want_ss;
 		if (frac - (1.0 - (-1.0f64).exp())).abs() > 0.05 {
-			return Some((format!("compressor attack: after {} frames (= attack time {:.4}s at {} Hz) the gain reduction is {:.1} % of its final value, expected 63.2 %", n_att, attack_s, sr, frac * 100.0), detail(&spec, sr, "attack time constant")));
+			return Some((format!("compressor attack: after {} frames (= attack time {:.4}s at {} Hz) the gain reduction is {:.1} % of its final value, expected 63.2 %{}", n_att, attack_s, sr, frac * 100.0, before.map(|b| format!(" (the effect ran at {} Hz before)", b)).unwrap_or_default()), spec_detail("attack time constant")));
 		}
 		if n_rel >= 20 {
 			let fr = gr_db(n_on + n_rel - 1) / got_ss;
 			if (fr - (-1.0f64).exp()).abs() > 0.05 {
-				return Some((format!("compressor release: {} frames (= release time {:.4}s) after the level dropped the gain reduction is {:.1} % of its value, expected 36.8 % (reduction {:.3} dB then, {:.3} dB in the steady state; in {:e} out {:e})", n_rel, release_s, fr * 100.0, gr_db(n_on + n_rel - 1), got_ss, x[n_on + n_rel - 1].left, y[n_on + n_rel - 1].left), detail(&spec, sr, "release time constant")));
+				return Some((format!("compressor release: {} frames (= release time {:.4}s) after the level dropped the gain reduction is {:.1} % of its value, expected 36.8 % (reduction {:.3} dB then, {:.3} dB in the steady state; in {:e} out {:e}){}", n_rel, release_s, fr * 100.0, gr_db(n_on + n_rel - 1), got_ss, x[n_on + n_rel - 1].left, y[n_on + n_rel - 1].left, before.map(|b| format!(" (the effect ran at {} Hz before)", b)).unwrap_or_default()), spec_detail("release time constant")));
 			}
 		}
 	}
